@@ -4,6 +4,7 @@ import contextlib
 import itertools
 import os
 import random
+import shutil
 import tempfile
 
 from harness.runner import BCheck
@@ -397,4 +398,112 @@ class CompareFiles(BCheck):
             os.rmdir(d)
 
 
-B_CHECKS = [DiploidFunctions(), Polyploid(), CompareFiles()]
+class RunComparePolyploid(BCheck):
+    name = "C11.run_compare-polyploid"
+    contract = ("run_compare with ploidy 3-4 on two phasings of the same variants whose genotypes may differ: blockwise_diff_genotypes == number of jointly phased "
+                "positions (in intersection blocks of >= 2 variants) with different allele multisets, largestblock_diff_genotypes == that number for a largest "
+                "intersection block, all_assessed_pairs / covered_variants / intersection_blocks == recount; identical files give zero errors")
+    rule = ("seeded pairs of PS-phased polyploid VCFs (6-14 biallelic SNVs, 1-3 phase sets per file, some calls unphased or homozygous, genotypes of the second file "
+            "re-drawn at some positions); non-trivial = at least two intersection blocks")
+    budget_s = {"quick": 60, "thorough": 600}
+    chunk = 10
+
+    def inputs(self, tier, rng):
+        for i in range(500 if tier == "quick" else 8000):
+            yield dict(seed=rng.getrandbits(48), ploidy=3 if i % 3 else 4, identical=(i % 10 == 0))
+
+    def make(self, inp):
+        r = random.Random(inp["seed"])
+        p = inp["ploidy"]
+        n = r.randint(6, 14)
+        files = []
+        calls0 = None
+        for k in (0, 1):
+            nsets = r.randint(1, 3)
+            calls = []
+            for j in range(n):
+                if k == 1 and calls0 is not None and (inp["identical"] or r.random() < 0.6):
+                    al, b = calls0[j]
+                    al = list(al) if al is not None else None
+                    if al is not None and not inp["identical"]:
+                        r.shuffle(al)
+                else:
+                    al = [r.randint(0, 1) for _ in range(p)]
+                    b = min(nsets - 1, j * nsets // n) if r.random() < 0.85 else None
+                calls.append((al, b))
+            if k == 0:
+                calls0 = calls
+            files.append(calls)
+        texts = []
+        for calls in files:
+            first = {}
+            for j, (al, b) in enumerate(calls):
+                if b is not None and len(set(al)) > 1:
+                    first.setdefault(b, 100 * (j + 1))
+            lines = ["##fileformat=VCFv4.2", "##contig=<ID=chr1,length=100000>", '##FORMAT=<ID=GT,Number=1,Type=String,Description="g">',
+                     '##FORMAT=<ID=PS,Number=1,Type=Integer,Description="p">', "#CHROM\tPOS\tID\tREF\tALT\tQUAL\tFILTER\tINFO\tFORMAT\ts"]
+            for j, (al, b) in enumerate(calls):
+                if b is not None and len(set(al)) > 1:
+                    lines.append("chr1\t%d\t.\tA\tC\t.\t.\t.\tGT:PS\t%s:%d" % (100 * (j + 1), "|".join(map(str, al)), first[b]))
+                else:
+                    lines.append("chr1\t%d\t.\tA\tC\t.\t.\t.\tGT:PS\t%s:." % (100 * (j + 1), "/".join(map(str, sorted(al)))))
+            texts.append("\n".join(lines) + "\n")
+        return texts, files
+
+    def expected(self, files):
+        a, b = files
+        blocks = {}
+        for j in range(len(a)):
+            (al0, b0), (al1, b1) = a[j], b[j]
+            if len(set(al0)) < 2 or len(set(al1)) < 2 or b0 is None or b1 is None:
+                continue
+            blocks.setdefault((b0, b1), []).append(j)
+        blocks = {k: v for k, v in blocks.items() if len(v) >= 2}
+        diff = {k: sum(1 for j in v if sorted(a[j][0]) != sorted(b[j][0])) for k, v in blocks.items()}
+        longest = max((len(v) for v in blocks.values()), default=0)
+        return dict(n_blocks=len(blocks), pairs=sum(len(v) - 1 for v in blocks.values()), total_diff=sum(diff.values()),
+                    largest_diff={diff[k] for k, v in blocks.items() if len(v) == longest}, covered=sum(len(v) for v in blocks.values()))
+
+    def nontrivial(self, inp):
+        return self.expected(self.make(inp)[1])["n_blocks"] >= 2
+
+    def check(self, inp):
+        import logging
+        from whatshap.cli.compare import run_compare
+        logging.disable(logging.CRITICAL)
+        texts, files = self.make(inp)
+        want = self.expected(files)
+        d = tempfile.mkdtemp(prefix="c11p_")
+        try:
+            paths = []
+            for k, t in enumerate(texts):
+                pth = os.path.join(d, "f%d.vcf" % k)
+                with open(pth, "w") as f:
+                    f.write(t)
+                paths.append(pth)
+            tsv = os.path.join(d, "p.tsv")
+            with contextlib.redirect_stdout(io.StringIO()):
+                run_compare(paths, ploidy=inp["ploidy"], tsv_pairwise=tsv)
+            with open(tsv) as f:
+                header = f.readline().rstrip("\n").lstrip("#").split("\t")
+                rows = [dict(zip(header, line.rstrip("\n").split("\t"))) for line in f]
+            if not rows:
+                return None if want["n_blocks"] == 0 else dict(expected="a TSV row for chr1", observed="none", clause="row")
+            row = rows[0]
+            got = dict(pairs=int(row["all_assessed_pairs"]), total_diff=int(float(row["blockwise_diff_genotypes"])), largest_diff=int(float(row["largestblock_diff_genotypes"])))
+            if got["pairs"] != want["pairs"]:
+                return dict(expected="all_assessed_pairs %d" % want["pairs"], observed=got["pairs"], clause="pairs")
+            if got["total_diff"] != want["total_diff"]:
+                return dict(expected="blockwise_diff_genotypes %d" % want["total_diff"], observed=got["total_diff"], clause="diff-genotypes")
+            if want["n_blocks"] and got["largest_diff"] not in want["largest_diff"]:
+                return dict(expected="largestblock_diff_genotypes in %r (a largest intersection block)" % sorted(want["largest_diff"]), observed=got["largest_diff"], clause="largest-diff-genotypes")
+            if inp["identical"] and (int(float(row["all_switches"])) or int(float(row["blockwise_hamming"])) or got["total_diff"]):
+                return dict(expected="zero errors for identical inputs", observed=dict(row), clause="identical")
+            return None
+        finally:
+            logging.disable(logging.NOTSET)
+            shutil.rmtree(d, ignore_errors=True)
+
+
+
+B_CHECKS = [RunComparePolyploid(), DiploidFunctions(), Polyploid(), CompareFiles()]
